@@ -1,0 +1,19 @@
+// Verification hooks. Only compiled with the cargo feature
+// `hsivonen_encoding_rs_verif`, which is off by default. Nothing here is
+// part of the public API of a normal build.
+
+use core::sync::atomic::{AtomicBool, Ordering};
+
+static FORCE_SCALAR_UTF8_VALIDATION: AtomicBool = AtomicBool::new(false);
+
+/// When `on`, `utf_8::utf8_valid_up_to` always runs the built-in scalar
+/// validator, also for inputs of 64 bytes or more for which it would
+/// otherwise dispatch to the `simdutf8` crate (and execute `cpuid`).
+pub fn force_scalar_utf8_validation(on: bool) {
+    FORCE_SCALAR_UTF8_VALIDATION.store(on, Ordering::Relaxed);
+}
+
+#[inline(always)]
+pub(crate) fn scalar_utf8_validation_forced() -> bool {
+    FORCE_SCALAR_UTF8_VALIDATION.load(Ordering::Relaxed)
+}
